@@ -97,3 +97,13 @@ P['C19'] = dict(
     dict(name='H19C', src='C19_invalid.cpp', covers=['end'], defines={'VCAP': 6, 'H19C': None}, cfg=dict(fp='exact'), ir_srcs=ALL_IR, native_srcs=ALL_IR, native_flags=['-llemon']),
     dict(name='H19D', src='C19_invalid.cpp', covers=['end'], defines={'VCAP': 6, 'H19D': None}, cfg=dict(fp='exact'), ir_srcs=ALL_IR, native_srcs=ALL_IR, native_flags=['-llemon']),
   ])
+
+P['C10'] = dict(
+  design_ref='DESIGN.md section 3 C10',
+  level_text='Solver-checked on the real Circuit::legalize / placeDetailed with C++ exceptions executed by the engine: in every scenario (normal, infeasible legalization, rejected parameters, callback throwing at each callback index of the run) each of the 7 structural setters called inside the callback throws and writes nothing (circuit write-protected), and after the call, however it ended, every setter succeeds again, check() passes, a failed legalization has left x/y/orientation unchanged and a further placement call works. Initial x positions symbolic.',
+  text=dict(bounds=dict(quick='2 cells, 2 rows, initial x symbolic in [-8,48], stages legalize and placeDetailed (1 pass, swaps only), 7 setters, every callback index', thorough='same'),
+            outside='placeGlobal beyond parameter rejection (see C19 H19D); more passes / shift and reordering callbacks; larger circuits'),
+  assumptions=STD_ASSUME + [BOOST_ASSUME, 'legalization ordering key evaluated with the linear float error model'],
+  harnesses=[
+    dict(name='H10', src='C10_busy.cpp', covers=['placement call ended', 'end'], defines={'VCAP': 8}, cfg=dict(fp='real'), ir_srcs=ALL_IR, native_srcs=ALL_IR, native_flags=['-llemon']),
+  ])
